@@ -17,14 +17,14 @@ def queries(prop, tier):
     q = tier == "quick"
     if prop == 3:
         for n in ((2,) if q else (2, 3)):
-            for sel in range(6):
+            for sel in (0, 1, 2, 3, 5):
                 qs.append(aq("P3-adaptive-auto-n%d-selects-%s" % (n, NAMES[sel]), {"N": n, "MODE": 1, "SEL": sel, "PROP": 3}))
     if prop == 13:
-        for f in range(6):
+        for f in (0, 1, 2, 3, 5):
             for n in ((2,) if q else (2, 3)):
                 for cap in ((n - 1,) if q else range(0, n)):
                     qs.append(aq("P13-adaptive-forced-%s-n%d-cap%d" % (NAMES[f], n, cap), {"N": n, "MODE": 0, "FORCE": f, "PROP": 13, "CAP": cap}))
     if prop == 16:
-        for f in range(6):
+        for f in (0, 1, 2, 3, 5):
             qs.append(aq("P16-adaptive-forced-%s-n2" % NAMES[f], {"N": 2, "MODE": 0, "FORCE": f, "PROP": 16}))
     return qs
